@@ -3,7 +3,7 @@
    set s; [wf] = what the GTID parser produces (distinct uuids/tags, non-empty
    normalized interval slices); subset/same are the set-theoretic relations. *)
 From Coq Require Import ZArith NArith Bool List.
-From Mysync Require Import Gtid.Interval Gtid.GtidSet Proofs.IntervalProofs Proofs.GtidProofs.
+From Mysync Require Import Gtid.Interval Gtid.GtidSet Proofs.IntervalProofs Proofs.GtidProofs Proofs.GtidEqual.
 Import ListNotations.
 Open Scope Z_scope.
 
@@ -82,3 +82,9 @@ Example C13_example_wf :
   wf [(1%N, [(0%N, [(1, 4); (6, 8)])]); (2%N, [(0%N, [(1, 3)]); (5%N, [(2, 3)])])] /\
   behind_or_equal [(1%N, [(0%N, [(2, 4)])])] [(1%N, [(0%N, [(1, 4); (6, 8)])]); (2%N, [(0%N, [(1, 3)])])] = true.
 Proof. split; [apply wfb_sound; vm_compute; reflexivity|vm_compute; reflexivity]. Qed.
+
+(* Equal is exact on well-formed sets: it answers true precisely for sets with the same transactions
+   (soundness above; completeness needs the uniqueness of the normalised representation) *)
+Theorem C13_equal_iff_same_transactions : forall s o, wf s -> wf o -> (set_equal s o = true <-> same s o).
+Proof. exact set_equal_iff. Qed.
+Print Assumptions C13_equal_iff_same_transactions.
